@@ -1,4 +1,4 @@
-SOURCE_COMMITS = ['2a82dd5']
+SOURCE_COMMITS = ['2a82dd5', '23b3277', 'd11a4bc']
 NOTES = ('Exit codes of ./check: 0 all obligations discharged; 1 violation (VIOLATION line); '
          '2 undecided (solver unknown / extraction failure / contract binding lost); 3 checker crash. '
          'See DESIGN.md.')
@@ -43,4 +43,14 @@ CLAIMED = {
         'streaming sampler keeps position = round * cohort so a sampler started at r replays rounds r, r+1, ... of one started at 0.',
    note='Trusted: numpy RandomState/choice and jax PRNGKey/split are deterministic (uninterpreted); choice(replace=False) distinct; '
         'primality of 2^31-1 for the seed-range remark. Not covered: pairwise distinct keys differing between rounds (PRNG property).'),
+ 'C09': dict(
+   text='Proof over a ghost file-system model of the checkpoint directory: a crash invariant (no name matching checkpoint_[0-9]{8} is '
+        'ever visible with partial content) is obliged after EVERY file-system effect of the real save_state / save_checkpoint; the '
+        'regex of the real pattern is proved equivalent to "exactly 8 digits" for all strings (z3 regex theory); numeric sort key, '
+        'newest-wins load, "exactly the keep largest remain, new file first" are postconditions; run_federated_experiment is proved, '
+        'from ANY crash-consistent directory and for all configurations, to return S(num_rounds) of the uninterrupted run and to call '
+        'every final evaluation once with (S(num_rounds), num_rounds) — every local bound on every path.',
+   note='Trusted: each gfile/os primitive is one atomic effect, rename atomic, pickle round trip, sorted() contract; the premise '
+        '(round-deterministic algorithm, round-indexed sampler) is modelled by uninterpreted APPLY/SAMPLE (checked for the built-ins in '
+        'C10/C13); root_dir without regex metacharacters. Native crash-injection driver replays refutations.'),
 }
